@@ -234,6 +234,7 @@ def check(prop, tier, seed, a, workdir, t_start):
             continue
         cmds = cmds or r['cmds']
         fails = []
+        unknown = []
         ok = 0
         canary_seen = canary_failed = False
         for p in r['props']:
@@ -247,7 +248,9 @@ def check(prop, tier, seed, a, workdir, t_start):
             elif p['status'] == 'FAILURE':
                 fails.append(p)
             else:
-                undec.append('%s[%s]: obligation %s status %s' % (g.name, cfg, p.get('property'), p['status']))
+                unknown.append('%s[%s]: obligation %s status %s' % (g.name, cfg, p.get('property'), p['status']))
+        if unknown and not fails:
+            undec += unknown[:5]
         if r.get('finding_mode') == 'only':
             f = r['finding']
             if fails:
@@ -287,14 +290,21 @@ def check(prop, tier, seed, a, workdir, t_start):
                     samples.append(dict(group=g.name, config=cfg, obligation=p.get('property'), text=p.get('description'),
                                         status=p['status']))
                     break
-        for p in fails:
-            violations.append((u, cfg, g, fv, r, p))
+        if fails:
+            def rank(p):
+                n = p.get('property', '')
+                for i, kw in enumerate(('postcondition', 'assertion', 'assigns', 'loop_invariant', 'precondition', 'loop_decreases')):
+                    if kw in n:
+                        return i
+                return 9
+            fails.sort(key=rank)
+            violations.append((u, cfg, g, fv, r, fails[0], fails))
 
     # ---- violations -> replay
     exit_code = 0
     out_dir = os.path.join(VERIF, 'replay_out')
     vio_lines = []
-    for (u, cfg, g, fv, r, p) in violations:
+    for (u, cfg, g, fv, r, p, allfails) in violations:
         os.makedirs(out_dir, exist_ok=True)
         bu = built[(u.name, cfg)]
         inputs = trace_inputs(p, 'h_' + g.name)
@@ -305,6 +315,7 @@ def check(prop, tier, seed, a, workdir, t_start):
         meta = bu.meta.get(g.enforce or '', {})
         rep = dict(property=prop, group=g.name, config=cfg, label=r.get('label'), failed_obligation=p.get('property'),
                    obligation_text=p.get('description'), c_location=loc,
+                   all_failed_obligations=[dict(obligation=x.get('property'), text=x.get('description')) for x in allfails],
                    repo_function=meta.get('qualname'), repo_location='%s:%s' % (meta.get('file'), meta.get('line')) if meta else None,
                    counterexample_inputs=inputs, native_replay=dict(reproduced=reproduced, log=log),
                    verifier='cbmc 6.11.0', verifier_commands=r['cmds'],
@@ -314,7 +325,8 @@ def check(prop, tier, seed, a, workdir, t_start):
         json.dump(rep, open(path, 'w'), indent=1, default=str)
         suffix = '' if reproduced else ' no-failing-input-found'
         vio_lines.append('VIOLATION property=%s replay=%s%s' % (prop, path, suffix))
-        sys.stderr.write('  failed obligation %s [%s %s]: %s\n' % (p.get('property'), g.name, cfg, p.get('description')))
+        for x in allfails[:6]:
+            sys.stderr.write('  failed obligation %s [%s %s]: %s\n' % (x.get('property'), g.name, cfg, x.get('description')))
         exit_code = 1
     for (f, g, cfg, fails) in known:
         print('KNOWN-FINDING: property=%s %s' % (prop, f['what']))
